@@ -459,10 +459,18 @@ def main():
                   "loader: every byte string of length <= L over {00,01,02,03,7F,80,FF} after the version word and as the whole file + mutated valid images; "
                   "crash: a child process dies at EVERY crash point of a save, for every forest of <= 3 entries and random larger ones, over an existing .fav and "
                   "over every other initial state of the home (no .fav, .fav4 lying around or being converted by Load, .fav older / same mtime / newer / same content, stale temporary file); "
-                  "after each death the whole directory is compared with the model's file system and fav.Load is run. "
+                  "after each death the whole directory is compared with the model's file system and fav.Load is run; "
+                  "kill at system-call granularity: the saving child runs under ptrace(2) and is killed (SIGKILL) at the entry of EVERY file-system call of the save as the kernel sees it "
+                  "(open for writing, write, rename, unlink, truncate, link, mkdir, chmod ...; all forests of <= 2 entries over an older / same-mtime / newer .fav, as first save, with .fav4 and stale temporary file, + PRNG(seed) larger ones), "
+                  "the recorded call list is compared with save_calls of the model and the directory + fav.Load after each kill with the model's prefix. "
                   "A case is non-trivial if it is a distinct saved tree / distinct loader input reaching a distinct result class / distinct (tree, crash point)",
              assumptions=["rename(2) replaces the target atomically and data written before the process dies survives it (no power loss): Base/Fs.v",
-                          "the process death is simulated by os.Exit at verif-tagged crash points (before every types.BinaryWrite of the save and before the rename)",
+                          "the process death is simulated by os.Exit at verif-tagged crash points (before every types.BinaryWrite of the save and before the rename) in sweeps 5 and 6, "
+                          "and is a real SIGKILL at the entry of every file-system call (ptrace syscall-entry stop: the kernel does not execute the call) in sweep 8; the window of sweep 8 is the call of FavRaw.Save in the child "
+                          "(two marker access(2) calls around it), calls are recognised by their x86-64 system-call number (a change of the directory through io_uring or a memory-mapped file would not be seen as a call; its effect on the "
+                          "directory at the other kill points still would)",
+                          "what a SECOND process or goroutine reading .fav concurrently sees is not driven as a race: it is covered by the kill sweep in so far as a reader sees a directory state that exists between two file-system calls of the saver "
+                          "(every such state is produced and fav.Load is run on it) - theorem for the call list of the model (C19_save_calls_any_disk), validation for the tie of that list to the kernel's view (ptrace)",
                           "the mtime comparison of Save is driven through the exported MTime field (newer / equal / older than the file)",
                           "the .fav4 files of the conversion sweep are written by the check (boards and lines only: fav4ReadFavrec rejects every .fav4 that contains a folder)",
                           "a stale temporary file is planted under a fixed name .fav.tmp.stale-left-by-a-crash; a collision with the 22 random characters of the save's own temporary name is covered by the theorem (any directory) only",
